@@ -466,16 +466,23 @@ def fillHand (haveVers : Bool) (need : Nat) : List Bytes → Bytes → Except Hs
     else if r.length > 16384 then .error (.alert 22)
     else fillHand haveVers need rest (hand ++ r)
 
-/-- the message bytes readHandshake hands to `unmarshal` (or the error), for the given records -/
-def readHandshakeBytes (haveVers : Bool) (records : List Bytes) : Except HsErr Bytes :=
-  match fillHand haveVers 4 records [] with
+/-- one `readHandshake` call: the message bytes handed to `unmarshal`, what stays in `c.hand`
+    (`c.hand.Next(4+n)` leaves the rest for the next message) and the unread records -/
+def readHandshakeStep (haveVers : Bool) (records : List Bytes) (hand0 : Bytes) : Except HsErr (Bytes × Bytes × List Bytes) :=
+  match fillHand haveVers 4 records hand0 with
   | .error e => .error e
   | .ok (hand, rest) =>
     let n := u24 (hand.getD 1 0) (hand.getD 2 0) (hand.getD 3 0)
     if n > 65536 then .error (.alert 80)
     else match fillHand haveVers (4 + n) rest hand with
       | .error e => .error e
-      | .ok (hand2, _) => .ok (hand2.take (4 + n))
+      | .ok (hand2, rest2) => .ok (hand2.take (4 + n), hand2.drop (4 + n), rest2)
+
+/-- the message bytes of the first readHandshake on a fresh connection -/
+def readHandshakeBytes (haveVers : Bool) (records : List Bytes) : Except HsErr Bytes :=
+  match readHandshakeStep haveVers records [] with
+  | .error e => .error e
+  | .ok r => .ok r.1
 
 /-- what readHandshake must return as a function of the BYTES alone (no record boundaries) -/
 def hsSpec (data : Bytes) : Except HsErr Bytes :=
